@@ -420,6 +420,7 @@ func init() {
 
 	// C07: ordering and arithmetic
 	drivers["c07"] = func(d *Drv) {
+		d.Do(Ev{"op": "date.today", "st": 1})
 		cmp := func(a, b []int) { d.Do(Ev{"op": "date.cmp", "a": a, "b": b}); d.S.Boundary() }
 		next := func(a []int) []int {
 			y, m, dd := a[0], a[1], a[2]
